@@ -35,8 +35,8 @@ RULE = (
     "(world digest, scenario digest, tape digest)."
 )
 TIERS = {
-    "quick": {"runs": 120, "budget_s": 45, "min_runs": 15, "run_timeout_s": 240},
-    "thorough": {"runs": 8000, "budget_s": 800, "min_runs": 300, "run_timeout_s": 600},
+    "quick": {"runs": 120, "budget_s": 45, "min_runs": 4, "run_timeout_s": 240},
+    "thorough": {"runs": 8000, "budget_s": 800, "min_runs": 40, "run_timeout_s": 600},
 }
 COMPONENTS_REAL = [
     "sqlfluff Linter.lint_paths persist gate, lint_fix_parsed loop-limit rollback, cli fix/format (_paths_fix, _stdin_fix, _handle_unparsable), api.simple.fix",
